@@ -31,7 +31,7 @@ var c13Codes = []int{451, 550, 452, 551, 450, 553}
 // two recipients with two statuses.
 func c13Addr(ch byte) string {
 	if ch == 'b' {
-		return "okA@X.Example" // (the domain's case differs too: the key of a recipient is the address as given in RCPT)
+		return "okA%d@X.Example" // (the domain's case differs too: the key of a recipient is the address as given in RCPT)
 	}
 	return fmt.Sprintf("ok%c%%d@x.example", ch) // (a '%' in the address: it is data, never a format)
 }
